@@ -273,6 +273,8 @@ type PodSpec struct {
 	// "notin:<g>" = (g's key NotIn [g's value]), "otherkey:<g>" = (unrelated key In [g's value]), "exists:<g>" = (g's key Exists)
 	Cross string `json:"cross,omitempty"`
 	Finished bool   `json:"finished,omitempty"`
+	// BoundPending: bound to Node but still in phase Pending (scheduled, containers not started yet)
+	BoundPending bool `json:"boundPending,omitempty"`
 }
 
 // NewPod materialises a PodSpec.
@@ -353,6 +355,9 @@ func (w *World) NewPod(s PodSpec) *v1.Pod {
 	switch {
 	case s.Finished:
 		p.Status.Phase = v1.PodSucceeded
+	case s.Node != "" && s.BoundPending:
+		p.Status.Phase = v1.PodPending
+		p.Status.Conditions = []v1.PodCondition{{Type: v1.PodScheduled, Status: v1.ConditionTrue}}
 	case s.Node != "":
 		p.Status.Phase = v1.PodRunning
 		p.Status.Conditions = []v1.PodCondition{{Type: v1.PodScheduled, Status: v1.ConditionTrue}}
@@ -415,6 +420,9 @@ func (a Action) String() string {
 			}
 			if p.Cross != "" {
 				s += " cross=" + p.Cross
+			}
+			if p.BoundPending {
+				s += " bound-pending"
 			}
 			s += "}"
 		}
